@@ -184,7 +184,7 @@ def run(repo, rep):
 
     # ---------------------------------------------------------------- C08.b numbers
     n = 0
-    itn = S.interp(repo, 'printer', {__import__('engine.roles', fromlist=['x']).name(repo, 'builtin_repr'): lambda it, a, k, nd: SymStr('base_repr(%s)' % prov(a[1]), nonempty=True)})
+    itn = S.interp(repo, 'printer', {__import__('engine.roles', fromlist=['x']).name(repo, 'builtin_repr'): lambda it, a, k, nd: SymStr('base_repr(%s)' % prov(a[-1]), nonempty=True)})
     for base in ('int', 'float', 'bool'):
         fn = S.printer_for(repo, base)
         v = ValueV('value', S.type_scenario(base, False), None)
@@ -255,7 +255,13 @@ def run(repo, rep):
         # the helper may live in another module of the package and be imported here
         brn2_ = __import__('engine.roles', fromlist=['x']).name(repo, 'builtin_repr')
         br = next((m2.funcs[brn2_] for m2 in repo.modules.values() if brn2_ in m2.funcs), None)
-    if br is not None:
+    if br is not None and len(br.params) < 2:
+        n += 1
+        rep.fail('C08.c', '_builtin_repr:base-dunder', br.where,
+                 '%s(%s) is no longer told the built-in base type by its caller: whatever it derives from the value itself (the MRO, the '
+                 'class name) is wrong for classes that list a mix-in after the built-in base (class Port(int, Tagged), every IntEnum / '
+                 'StrEnum member), whose literal then comes from object.__repr__ or an overridden __repr__' % (br.name, ', '.join(br.params)))
+    elif br is not None:
         n += 1
         rets = [src(r.value) for r in ast.walk(br.node) if isinstance(r, ast.Return) and r.value is not None]
         rep.check('%s.__repr__(%s)' % (br.params[0], br.params[1]) in rets, 'C08.c', '_builtin_repr:base-dunder', br.where,
